@@ -9,6 +9,7 @@ package main
 import (
 	"bytes"
 	"fmt"
+	"math"
 	"sort"
 	"strconv"
 	"strings"
@@ -134,7 +135,195 @@ func (strImpl) Gen(h *vh.H, i int) string {
 	if i%4 == 3 {
 		return "lit " + vh.Hex(genLiteral(h))
 	}
+	if i%8 == 1 {
+		return genNumOp(h)
+	}
 	return "str " + vh.Hex(genBytes(h))
+}
+
+// numeric scalars of option values: integers through the model, floats by oracle text
+func genNumOp(h *vh.H) string {
+	switch h.Rng.IntN(5) {
+	case 0:
+		v := vh.Pick(h, []int64{0, 1, -1, 9, 10, -10, 99, 100, math.MaxInt32, math.MinInt32, math.MaxInt64, math.MinInt64, 1 << 53, int64(h.Rng.Uint64()), int64(h.Rng.Int32()), int64(h.Rng.IntN(1000)) - 500})
+		return fmt.Sprintf("int %d", v)
+	case 1:
+		v := vh.Pick(h, []uint64{0, 1, 9, 10, 1 << 32, math.MaxUint32, math.MaxUint64, 1 << 63, h.Rng.Uint64(), uint64(h.Rng.Uint32())})
+		return fmt.Sprintf("uint %d", v)
+	case 2:
+		// integer literal forms for the reader spec: decimal, octal, hex, signs, malformed
+		forms := []string{"0", "00", "07", "017", "08", "0x1F", "0X1f", "0x", "0xG", "1.5", "1e5", "12a", "-0", "-017", "-0x10", "--1", "-", "1_000",
+			fmt.Sprint(h.Rng.Uint32()), "0" + strconv.FormatUint(uint64(h.Rng.Uint32()), 8), "0x" + strconv.FormatUint(h.Rng.Uint64(), 16), "-" + fmt.Sprint(h.Rng.Uint32()),
+			"18446744073709551615", "-9223372036854775808", "0777777777777777777777", "0xffffffffffffffff"}
+		return "numlit " + vh.Hex([]byte(vh.Pick(h, forms)))
+	case 3:
+		v := vh.Pick(h, []float32{0, 1, -1.5, math.MaxFloat32, math.SmallestNonzeroFloat32, 0.1, float32(math.Inf(1)), float32(math.Inf(-1)), float32(math.NaN()), 1e10, 16777216, -0.0, math.Float32frombits(h.Rng.Uint32())})
+		return completeFlt(fmt.Sprintf("flt 32 %08x", math.Float32bits(v)))
+	default:
+		v := vh.Pick(h, []float64{0, 1, -1.5, math.MaxFloat64, math.SmallestNonzeroFloat64, 0.1, math.Inf(1), math.Inf(-1), math.NaN(), 1e21, 1e-7, 123456789012345680, 1e20, 100000, math.Float64frombits(h.Rng.Uint64())})
+		return completeFlt(fmt.Sprintf("flt 64 %016x", math.Float64bits(v)))
+	}
+}
+
+// fltText: the text the real marshalSingular writes for the float with these bits
+func fltText(size, hexbits string) (text string, want float64, ok bool) {
+	bits, err := strconv.ParseUint(hexbits, 16, 64)
+	if err != nil {
+		return "", 0, false
+	}
+	if size == "32" {
+		want = float64(math.Float32frombits(uint32(bits)))
+		text, ok = optionreflect.VerifMarshalSingular(protoreflect.FloatKind, protoreflect.ValueOfFloat32(math.Float32frombits(uint32(bits))))
+		return
+	}
+	want = math.Float64frombits(bits)
+	text, ok = optionreflect.VerifMarshalSingular(protoreflect.DoubleKind, protoreflect.ValueOfFloat64(want))
+	return
+}
+
+// completeFlt appends the oracle text (for the model, which does not format floats) to `flt <size> <bits>`.
+func completeFlt(op string) string {
+	f := strings.Split(op, " ")
+	text, _, ok := fltText(f[1], f[2])
+	if !ok {
+		return ""
+	}
+	return strings.Join(f[:3], " ") + " " + vh.Hex([]byte(text))
+}
+
+// readValue parses `option x = <text>;` with protocompile and returns the value node.
+func readValue(text string) (ast.ValueNode, bool) {
+	src := "syntax = \"proto3\";\noption x = " + text + ";\n"
+	var failed bool
+	hd := reporter.NewHandler(reporter.NewReporter(func(reporter.ErrorWithPos) error { failed = true; return nil }, nil))
+	f, err := parser.Parse("s.proto", strings.NewReader(src), hd)
+	if err != nil || failed || f == nil {
+		return nil, false
+	}
+	var opts []*ast.OptionNode
+	for _, d := range f.Decls {
+		if o, ok := d.(*ast.OptionNode); ok {
+			opts = append(opts, o)
+		} else {
+			return nil, false
+		}
+	}
+	if len(opts) != 1 {
+		return nil, false
+	}
+	return opts[0].Val, true
+}
+
+// intClass: `int:<decimal>` when the text is read as an integer literal, else `other`.
+func intClass(text string) string {
+	v, ok := readValue(text)
+	if !ok {
+		return "other"
+	}
+	switch n := v.(type) {
+	case *ast.UintLiteralNode:
+		return "int:" + strconv.FormatUint(n.Val, 10)
+	case *ast.NegativeIntLiteralNode:
+		return "int:" + strconv.FormatInt(n.Val, 10)
+	}
+	return "other"
+}
+
+// tokenShape: how the text of a float is tokenised: `num`, `- num`, `ident`, `- ident`.
+func tokenShape(text string) (shape string, val float64, ok bool) {
+	v, ok := readValue(text)
+	if !ok {
+		return "err", 0, false
+	}
+	switch n := v.(type) {
+	case *ast.UintLiteralNode:
+		return "num", float64(n.Val), true
+	case *ast.NegativeIntLiteralNode:
+		return "- num", float64(n.Val), true
+	case *ast.FloatLiteralNode:
+		return "num", n.Val, true
+	case *ast.SignedFloatLiteralNode:
+		if _, special := n.Float.(*ast.SpecialFloatLiteralNode); special {
+			return "- ident", n.Val, true
+		}
+		return "- num", n.Val, true
+	case *ast.SpecialFloatLiteralNode:
+		return "ident", n.Val, true
+	case *ast.IdentNode:
+		switch n.Val {
+		case "inf":
+			return "ident", math.Inf(1), true
+		case "nan":
+			return "ident", math.NaN(), true
+		}
+	}
+	return "other", 0, false
+}
+
+func execNumOp(h *vh.H, op string, f []string) string {
+	switch f[0] {
+	case "int", "uint":
+		if len(f) != 2 {
+			return "bad-op"
+		}
+		var text string
+		var okm bool
+		if f[0] == "int" {
+			v, err := strconv.ParseInt(f[1], 10, 64)
+			if err != nil {
+				return "bad-op"
+			}
+			text, okm = optionreflect.VerifMarshalSingular(vh.Pick(h, []protoreflect.Kind{protoreflect.Int64Kind, protoreflect.Sint64Kind, protoreflect.Sfixed64Kind, protoreflect.Int32Kind}), protoreflect.ValueOfInt64(v))
+		} else {
+			v, err := strconv.ParseUint(f[1], 10, 64)
+			if err != nil {
+				return "bad-op"
+			}
+			text, okm = optionreflect.VerifMarshalSingular(vh.Pick(h, []protoreflect.Kind{protoreflect.Uint64Kind, protoreflect.Fixed64Kind, protoreflect.Uint32Kind}), protoreflect.ValueOfUint64(v))
+		}
+		if !okm {
+			return "err"
+		}
+		back := intClass(text)
+		// the property on the real code: the text reads back as the number it was made from
+		if back == "int:"+f[1] {
+			h.Count("num.int-roundtrip-ok")
+			h.Nontrivial(op)
+		} else {
+			h.Fail("int-option-roundtrip", op, fmt.Sprintf("text %q read back as %s", text, back))
+		}
+		return vh.Hex([]byte(text)) + " " + back
+	case "numlit":
+		if len(f) != 2 {
+			return "bad-op"
+		}
+		b, ok := vh.UnHex(f[1])
+		if !ok {
+			return "bad-op"
+		}
+		c := intClass(string(b))
+		h.Count("num.lit-" + strings.SplitN(c, ":", 2)[0])
+		h.Nontrivial(op)
+		return c
+	case "flt":
+		if len(f) != 4 || completeFlt(strings.Join(f[:3], " ")) != op {
+			return "bad-op"
+		}
+		text, want, _ := fltText(f[1], f[2])
+		shape, got, ok := tokenShape(text)
+		same := ok && (got == want || (math.IsNaN(got) && math.IsNaN(want)))
+		if ok && f[1] == "32" {
+			same = float32(got) == float32(want) || (math.IsNaN(got) && math.IsNaN(want))
+		}
+		if same {
+			h.Count("num.float-roundtrip-ok")
+			h.Nontrivial(op)
+		} else {
+			h.Fail("float-option-roundtrip", op, fmt.Sprintf("text %q read back as %v (%s), want %v", text, got, shape, want))
+		}
+		return vh.Hex([]byte(text)) + " " + shape
+	}
+	return "bad-op"
 }
 
 // lexRead reads one string literal with protocompile's lexer/parser: the text is the whole value of
@@ -176,6 +365,10 @@ func lexRead(lit string) (string, bool) {
 
 func (strImpl) Exec(h *vh.H, op string) string {
 	f := strings.Split(op, " ")
+	switch f[0] {
+	case "int", "uint", "numlit", "flt":
+		return execNumOp(h, op, f)
+	}
 	if len(f) != 2 {
 		return "bad-op"
 	}
